@@ -98,6 +98,15 @@ def contradicts(expect, obs):
                 why.append("lexer panicked on %r" % text)
             else:
                 why += check_lex(text, obs["raw_lines"])
+        elif e[0] == "errors_equal":
+            errs = obs.get("errors", [])
+            a_, b_ = e[1]
+            if len(errs) <= max(a_, b_) or errs[a_] != errs[b_]:
+                why.append("error reports %d and %d differ: %r" % (a_, b_, errs))
+        elif e[0] == "cells_are":
+            got = [(c[0], c[1]) for c in obs["cells"]]
+            if got != [tuple(x) for x in e[1]]:
+                why.append("stack (top first) is %s, expected %s" % (got, e[1]))
         elif e[0] == "print_int_spec":
             top = obs["cells"][0] if obs["cells"] else None
             if top is None or top[0] != "int" or top[1] != str(e[1]):
@@ -225,6 +234,89 @@ def match_known_e2(pid, lemma, what):
     return None
 
 
+E2_WORKERS = int(os.environ.get("VERIF_E2_WORKERS", str(max(1, min(NCPU - 2, 12)))))
+
+
+def run_lemmas(ex, pid, tier, modules, only):
+    """Run the lemma modules on executor ex, sharded over E2_WORKERS forked processes (lemma i goes to worker
+    i % n; every worker walks the same run() code, so budgets and orders are identical). Returns a LemmaSet holding
+    the merged results; ex.queries / solver_time / functions_executed / summaries_used are merged into ex."""
+    import pickle, tempfile
+
+    def fresh():
+        L = LemmaSet(ex, pid)
+        L.pid = pid
+        if tier == "quick":
+            L.time_box_deadline = PROCESS_T0 + QUICK_TIME_BOX_S
+        return L
+    n = E2_WORKERS
+    if n <= 1:
+        L = fresh()
+        for mod in modules:
+            mod.run(L, tier, only)
+        return L
+    tmpd = tempfile.mkdtemp(prefix="shards-", dir=CACHE)
+    pids = []
+    sys.stdout.flush()
+    sys.stderr.flush()
+    for k in range(n):
+        c = os.fork()
+        if c == 0:
+            rc = 0
+            try:
+                L = fresh()
+                L.shard = (k, n)
+                for mod in modules:
+                    mod.run(L, tier, only)
+                obs = [(o.lemma, o.what, o.verdict, o.model, o.path, o.detail, getattr(o, "scenario", None)) for o in L.obligations]
+                out = {"obligations": obs, "undecided": L.undecided, "samples": L.samples, "paths": L.paths, "skipped": L.skipped,
+                       "selftest_traces": getattr(L, "selftest_traces", 0), "queries": ex.queries, "solver_time": ex.solver_time,
+                       "functions": set(ex.functions_executed), "summaries": set(ex.summaries_used)}
+                with open(os.path.join(tmpd, "%d.pkl" % k), "wb") as f:
+                    pickle.dump(out, f)
+            except BaseException as e:
+                rc = 3
+                try:
+                    import traceback
+                    with open(os.path.join(tmpd, "%d.err" % k), "w") as f:
+                        f.write("%s: %s\n%s" % (type(e).__name__, e, traceback.format_exc()))
+                except Exception:
+                    pass
+            finally:
+                sys.stdout.flush()
+                os._exit(rc)
+        pids.append(c)
+    for c in pids:
+        os.waitpid(c, 0)
+    from e2.lemma import Obligation
+    M = fresh()
+    for k in range(n):
+        pf = os.path.join(tmpd, "%d.pkl" % k)
+        if not os.path.exists(pf):
+            err = open(os.path.join(tmpd, "%d.err" % k)).read()[-600:] if os.path.exists(os.path.join(tmpd, "%d.err" % k)) else "worker died"
+            M.undecided.append(("worker %d/%d" % (k, n), "ENGINE ERROR in a lemma worker: " + err))
+            continue
+        out = pickle.load(open(pf, "rb"))
+        for (lem, what, verdict, model, path, detail, scen) in out["obligations"]:
+            ob = Obligation(lem, what, verdict, model=model, path=path, detail=detail)
+            if scen is not None:
+                ob.scenario = scen
+            M.obligations.append(ob)
+        M.undecided += out["undecided"]
+        M.samples += out["samples"]
+        M.paths += out["paths"]
+        M.skipped += out["skipped"]
+        M.selftest_traces = getattr(M, "selftest_traces", 0) + out["selftest_traces"]
+        ex.queries += out["queries"]
+        ex.solver_time += out["solver_time"]
+        ex.functions_executed |= out["functions"]
+        ex.summaries_used |= out["summaries"]
+    M.samples.sort(key=lambda s_: str(s_.get("lemma", "")))
+    import shutil
+    shutil.rmtree(tmpd, ignore_errors=True)
+    return M
+
+
 def e2_run(pid, tier, modules, flavours=("on", "off"), only=None, assumptions=None, bounds="", loop_bound=8):
     """modules: list of lemma modules (each has run(L, tier, only)). Returns part-result dict."""
     t0 = time.time()
@@ -244,12 +336,7 @@ def e2_run(pid, tier, modules, flavours=("on", "off"), only=None, assumptions=No
         except Exception as e:
             problems.append(("mir-" + fl, "MIR dump/parse failed: %s" % e))
             continue
-        L = LemmaSet(ex, pid)
-        L.pid = pid
-        if tier == "quick":
-            L.time_box_deadline = PROCESS_T0 + QUICK_TIME_BOX_S
-        for mod in modules:
-            mod.run(L, tier, only)
+        L = run_lemmas(ex, pid, tier, modules, only)
         sm = L.summary()
         replays += getattr(L, "selftest_traces", 0)
         per_flavour["overflow-checks=" + fl] = dict(sm, solver_queries=ex.queries, solver_time_s=round(ex.solver_time, 2),
